@@ -83,7 +83,9 @@ def check_alloc_funnel(cs):
 
 def build_lib(variant='asan'):
     cs, hs = lib_sources()
-    flags = COMMON + (['-fsanitize=fuzzer-no-link'] if variant == 'fuzz' else []) + include_flags()
+    # libksi itself is compiled without optimisation: at -O1 the compiler deletes loads whose value is unused (e.g. the
+    # m[0] pre-read of KSI_FTLV_memRead on an empty buffer) before ASan can see them; the harnesses stay at -O1
+    flags = ['-g', '-O0'] + SAN + (['-fsanitize=fuzzer-no-link'] if variant == 'fuzz' else []) + include_flags()
     key = sha_files(cs + hs + [os.path.join(ROOT, 'sim', 'allocshim.h')], ' '.join(flags))
     d = os.path.join(BUILD, 'lib', variant + '-' + key)
     stamp = os.path.join(d, 'ok')
